@@ -107,7 +107,9 @@ def exc_signature(e, with_frames=True, depth=0):
         return None
     sig = {'type': type(e).__name__, 'msg': norm_text(e)}
     if with_frames:
-        sig['frames'] = _ay_frames(e.__traceback__)
+        # where exactly the recursion limit trips depends on the depth of the caller's stack (harness frames included):
+        # not an observation about the library
+        sig['frames'] = _ay_frames(e.__traceback__) if not isinstance(e, RecursionError) else ['<recursion limit>']
     if depth < 8:
         if e.__cause__ is not None:
             sig['cause'] = exc_signature(e.__cause__, with_frames, depth + 1)
